@@ -382,6 +382,8 @@ def r4(ctx, F, rule, sfx):
 
 
 def r5(ctx, F, rule, sfx):
+    accessor_consistency(ctx, F, rule, sfx, 'voronoi_cell::VoronoiCell', ['face_count', 'face_connections_offset'])
+    accessor_consistency(ctx, F, rule, sfx, 'voronoi::Voronoi', ['cell_face_connections', 'faces', 'cells'], alias={'cells': 'voronoi_cells'})
     fi = F.body_by_suffix('VoronoiCell::face_indices')
     ip = I.Interp(F)
     me = I.Sym(nf.sym_atom('cell'), 'voronoi::voronoi_cell::VoronoiCell')
